@@ -77,17 +77,73 @@ theorem range_lookup_gap_free (fuel : Nat) (c c' : Cache) (pd : PD) (startKey en
 example : ∃ c' ls, locateKeyRange 20 (locateKey Cache.empty pd2 [97]).1 pd2 [98] [] = (c', .ok ls) ∧ ls.length = 2 :=
   ⟨_, _, rfl, rfl⟩
 
-/-- sorted, pairwise disjoint request ranges; only the last one may be unbounded -/
-def ValidRanges : List KeyRange → Prop
-  | [] => True
-  | [r] => r.end_ = [] ∨ Bytes.lt r.start r.end_ = true
-  | r :: r' :: rest => Bytes.lt r.start r.end_ = true ∧ Bytes.le r.end_ r'.start = true ∧ ValidRanges (r' :: rest)
+/-- sorted, pairwise disjoint request ranges with start < end; only the last one may be unbounded -/
+abbrev ValidRanges := ValidRangesP
 
-/-- full statement for BatchLocateKeyRanges: the locations cover every requested range.  FALSE (S8): see below. -/
+/-- full statement for BatchLocateKeyRanges: the locations cover every requested range (any cache state, any PD).
+    Not proved in this generality; see `batch_lookup_gap_free_partial`.  (Before /repo commit 5462de8 it was FALSE:
+    the merger dropped a cached region with an unbounded end key — finding S8; `s8_regression` below is that
+    scenario on the repaired merger.) -/
 def batch_lookup_gap_free : Prop :=
   ∀ (fuel : Nat) (c c' : Cache) (pd : PD) (ranges : List KeyRange) (ls : List Region),
-    (∀ p ∈ pd, p.r.wf) → ValidRanges ranges →
+    ValidRanges ranges →
     batchLocateKeyRanges fuel c pd ranges = (c', .ok ls) → ∀ kr ∈ ranges, Covers ls kr.start kr.end_
+
+/-- BatchLocateKeyRanges (merger as of /repo 5462de8): whenever it answers, the locations cover every requested range
+    (unbounded ends and the last region included), for every cache state and EVERY PD behaviour, provided
+    (1) the cached regions gathered by step 1 have non-decreasing start keys (true when the index holds no overlapping
+        stale entry), and
+    (2) step 1 leaves at most one uncached range to be loaded from PD (any number of PD rounds for it).
+    This contains the S8 shape (cached head, one uncached hole, cached unbounded tail, several request ranges).
+    Several uncached ranges at once (multi-range gap check + rangesAfterKey over several ranges) are covered by the
+    differential only. -/
+theorem batch_lookup_gap_free_partial (fuel : Nat) (c c' : Cache) (pd : PD) (ranges : List KeyRange)
+    (ls : List Region) (hv : ValidRanges ranges)
+    (hs : StartsSorted ((batchStep1 fuel c ranges).cached.map (·.r)))
+    (hu : (batchStep1 fuel c ranges).uncached.length ≤ 1)
+    (h : batchLocateKeyRanges fuel c pd ranges = (c', .ok ls)) :
+    ∀ kr ∈ ranges, Covers ls kr.start kr.end_ := by
+  unfold batchLocateKeyRanges at h
+  have hA := (batchStep1_spec (fuel := fuel) (c := c) (st := ⟨none, [], []⟩) hv
+    (by intro l hl; cases hl)).2
+  change ∀ kr ∈ ranges, ServedBy (batchStep1 fuel c ranges).cached (batchStep1 fuel c ranges).uncached kr at hA
+  simp only at h
+  generalize batchStep1 fuel c ranges = st at h hs hu hA
+  have hinit := mergerInv_init hs
+  -- in both cases: an invariant-carrying merger whose merged part covers the uncached range (if any)
+  have key : ∃ m', ls = m'.build ∧ MergerInv (st.cached.map (·.r)) m' ∧
+      ∀ u ∈ st.uncached, Covers m'.merged u.start u.end_ := by
+    cases hU : st.uncached with
+    | nil =>
+      rw [hU, batchStep2_nil] at h
+      simp only [Prod.mk.injEq, Except.ok.injEq] at h
+      exact ⟨_, h.2.symm, hinit, by intro u hu'; cases hu'⟩
+    | cons u rest =>
+      cases rest with
+      | cons u2 rest2 => rw [hU] at hu; simp at hu
+      | nil =>
+        rw [hU] at h
+        cases hb : batchStep2 fuel c pd [u] ⟨none, st.cached.map (·.r), []⟩ with
+        | mk c1 res =>
+          rw [hb] at h
+          cases res with
+          | error x => simp at h
+          | ok m' =>
+            simp only [Prod.mk.injEq, Except.ok.injEq] at h
+            have hb' : batchStep2 fuel c pd [⟨u.start, u.end_⟩] ⟨none, st.cached.map (·.r), []⟩ = (c1, .ok m') := hb
+            have := batchStep2_single hb' hinit (covUpTo_init u.start u.end_)
+            refine ⟨m', h.2.symm, this.1, ?_⟩
+            intro u' hu'
+            simp only [List.mem_singleton] at hu'
+            subst hu'
+            exact this.2
+  obtain ⟨m', rfl, hinv, hcovU⟩ := key
+  obtain ⟨hb1, hb2⟩ := build_covers hinv
+  intro kr hkr k hk1 hk2
+  rcases hA kr hkr k hk1 hk2 with ⟨ce, hce, hcc⟩ | ⟨u, hu', hu1, hu2⟩
+  · exact hb2 ce.r (List.mem_map.mpr ⟨ce, hce, rfl⟩) k hcc
+  · obtain ⟨l, hl, hlc⟩ := hcovU u hu' k hu1 hu2
+    exact ⟨l, hb1 l hl, hlc⟩
 
 def pd3 : PD :=
   [⟨⟨1, [], some [103], 1, 0⟩, 1, [1, 2, 3]⟩, ⟨⟨2, [103], some [116], 2, 0⟩, 1, [1, 2, 3]⟩, ⟨⟨3, [116], none, 1, 0⟩, 1, [1, 2, 3]⟩]
@@ -95,21 +151,19 @@ def pd3 : PD :=
 /-- the cache after `LocateKey("u")` on a cold cache: only the last region [t, +∞) -/
 def warmLast : Cache := (locateKey Cache.empty pd3 [117]).1
 
-/-- S8: with [t,+∞) cached and the rest not, the ranges [a,b), [u,+∞) come back as [-∞,g) only: the merger's
-    `bytes.Compare(*lastEndKey, cached.EndKey()) >= 0` is true for the empty (unbounded) cached end key, so the cached
-    last region is dropped and no location contains "u". -/
-theorem not_batch_lookup_gap_free : ¬ batch_lookup_gap_free := by
-  intro h
-  have hc := h 20 warmLast (batchLocateKeyRanges 20 warmLast pd3 [⟨[97], [98]⟩, ⟨[117], []⟩]).1 pd3
-    [⟨[97], [98]⟩, ⟨[117], []⟩] [⟨1, [], some [103], 1, 0⟩]
-    (by intro p hp; simp [pd3] at hp; rcases hp with rfl | rfl | rfl <;> simp [Region.wf] <;> decide)
-    (by refine ⟨by decide, by decide, Or.inl rfl⟩)
-    rfl ⟨[117], []⟩ (by simp)
-  obtain ⟨l, hl, hlc⟩ := hc [117] (le_refl _) (Or.inl rfl)
-  simp only [List.mem_singleton] at hl
-  subst hl
-  revert hlc
-  decide
+/-- the S8 scenario on the repaired merger: with [t,+∞) cached and the rest not, the ranges [a,b), [u,+∞) now come
+    back as [-∞,g) followed by the cached [t,+∞) -/
+theorem s8_regression :
+    (batchLocateKeyRanges 20 warmLast pd3 [⟨[97], [98]⟩, ⟨[117], []⟩]).2 =
+      .ok [⟨1, [], some [103], 1, 0⟩, ⟨3, [116], none, 1, 0⟩] := rfl
+
+/-- the hypotheses of `batch_lookup_gap_free_partial` hold in the S8 scenario -/
+example : ValidRanges [⟨[97], [98]⟩, ⟨[117], []⟩] ∧
+    StartsSorted ((batchStep1 20 warmLast [⟨[97], [98]⟩, ⟨[117], []⟩]).cached.map (·.r)) ∧
+    (batchStep1 20 warmLast [⟨[97], [98]⟩, ⟨[117], []⟩]).uncached.length ≤ 1 := by
+  refine ⟨⟨by decide, by decide, Or.inl rfl⟩, ?_, by decide⟩
+  have : (batchStep1 20 warmLast [⟨[97], [98]⟩, ⟨[117], []⟩]).cached.map (·.r) = [⟨3, [116], none, 1, 0⟩] := rfl
+  rw [this]; simp [StartsSorted]
 
 /-! ## no regression -/
 
